@@ -27,22 +27,22 @@ type Violation struct {
 }
 
 type Job struct {
-	Mode     string   `json:"mode"`
-	Property string   `json:"property"`
-	Tier     string   `json:"tier"`
-	Seed     uint64   `json:"seed"`
-	Worker   int      `json:"worker"`
-	Workers  int      `json:"workers"`
-	Out      string   `json:"out"`
-	Crumb    string   `json:"crumb"`
-	Deadline int64    `json:"deadline_unix_ms"`
-	Tape     []uint64 `json:"tape"`
-	Key      string   `json:"key"`
-	MaxCases int      `json:"max_cases"`
-	ShrinkN  int      `json:"shrink_budget"`
-	StartCase int     `json:"start_case"`
-	From     int      `json:"from"`
-	To       int      `json:"to"`
+	Mode      string   `json:"mode"`
+	Property  string   `json:"property"`
+	Tier      string   `json:"tier"`
+	Seed      uint64   `json:"seed"`
+	Worker    int      `json:"worker"`
+	Workers   int      `json:"workers"`
+	Out       string   `json:"out"`
+	Crumb     string   `json:"crumb"`
+	Deadline  int64    `json:"deadline_unix_ms"`
+	Tape      []uint64 `json:"tape"`
+	Key       string   `json:"key"`
+	MaxCases  int      `json:"max_cases"`
+	ShrinkN   int      `json:"shrink_budget"`
+	StartCase int      `json:"start_case"`
+	From      int      `json:"from"`
+	To        int      `json:"to"`
 }
 
 type Found struct {
